@@ -102,6 +102,16 @@ register('C03', 'p_update', 'c03',
          'implementation result an independent oracle (tools/corr/oracle_exact.py, no gemato code) checks exactness and the fresh verification must succeed.',
          ORACLE + ['kernel: the scratch tree behaves like the inode-graph model incl. open(..., "w") / rename / unlink'])
 
+register('C10', 'p_update', 'c10',
+         UPD_RULE + 'operation sequences: file listing, 0-3 lookups/verifications, listing, update (whole tree / sub-directory / invalid path / with one persistent '
+         'injected OSError / with a directory on another device in one-file-system mode / with a symlink loop), listing, then either the loader is discarded '
+         'or save (all option combinations as C03), listing; listings are content + mtime of every file, also taken after a failed operation; '
+         'non-trivial = distinct (files, manifests, mutations, ops, fault)',
+         'Theorems in Properties/C10.v (only save returns a different filesystem; write/unlink frame; refresh keeps the entry type); on the implementation the '
+         'listings are compared (nothing changes before save or after a failed operation; after save only loaded Manifests differ) and the Manifest texts before/after '
+         'are parsed independently to compare DIST/IGNORE/TIMESTAMP lines, out-of-scope entries and entry types.',
+         ORACLE + ['kernel: file mtimes only change when a file is written'])
+
 # ---- MANIFEST metadata per claimed property ------------------------------------------------
 NOT_APPLICABLE = {}
 META = {
@@ -182,6 +192,13 @@ META = {
               'parents reference rewritten children with their true digests, a fresh verification succeeds, whatever the prior Manifest state) is decided on generated '
               'trees by running model and /repo and checking the result with an independent exactness oracle and a fresh verification.',
    level_note='About Model/{Verify,Update}.v; the executable update/save model is the reference for disagreements; known findings D8, D11, D12 (unrepaired defects) are matched structurally.'),
+ 'C10': dict(engine='coq+tree', design_ref='DESIGN.md section 5 C10',
+   technique='Coq theorems (only the save operation returns a changed filesystem, for every operation sequence; frame lemmas for write/unlink) + content+mtime snapshots of real trees around every operation',
+   level_text='Proved in Coq for every sequence of loader operations: every filesystem state seen before the first save equals the initial one (verification, lookups, update, '
+              'set_timestamp, reload never write, whether they succeed or fail: C10_no_save_no_write); writing or unlinking a path leaves every other regular file untouched '
+              '(C10_write_frame, C10_unlink_frame); a refreshed entry keeps its tag, path and aux name. PARTIAL: that save writes only Manifest paths and the preservation of '
+              'DIST/IGNORE/TIMESTAMP and out-of-scope entries through the whole update are checked on generated trees (content+mtime listings, independent Manifest parser).',
+   level_note='About Exec/Tree.v run_op over Model/Update.v; the model does not expose partially completed saves (a failing save is compared up to its error only).'),
  'C09': dict(engine='coq+text', design_ref='DESIGN.md section 5 C09',
    technique='Coq theorems (totality of the parser result type by induction over lines; per-class rejection lemmas) + differential runs',
    level_text='Proved in Coq for every text: load returns entries, ManifestSyntaxError or ManifestUnsignedData and nothing else; accepted entries '
